@@ -4,9 +4,13 @@ import CoupeModel.Model.Kk
 import CoupeModel.Model.GridRcb
 import CoupeModel.Model.Rcb
 import CoupeModel.Model.Random
+import CoupeModel.Model.Sfc
+import CoupeModel.Model.MultiJagged
 import CoupeModel.Driver.Util
 import CoupeModel.Driver.RcbF32
+import CoupeModel.Driver.C09
 import CoupeModel.Driver.C10
+import CoupeModel.Driver.C11
 import CoupeModel.Driver.C13
 
 /-!
@@ -20,9 +24,17 @@ C01 driver: the *verdict* of each partitioner model on the op of the harness
 * `notfound` (Ckk), `rejected lenmismatch` / `rejected invalidorder` /
   `rejected order-assert` for refused inputs, `panic <class>` / `hang` when the
   model aborts;
-* `skip …` where the model declines: an algorithm whose model is not wired here
-  yet (`skip model-not-wired <algo>`), an input outside the usage contract
-  (`skip outside-contract`), a weight that is not an exact integer.
+* `skip …` where the model declines (counted by the check): an input outside the usage
+  contract (`skip outside-contract`), a weight that is not an exact integer, a k-way Kk
+  input too large for the list-based model, a missing `=> aux` part.
+
+A line is `<op> => <aux…>`: `<op>` is the input the harness ran (public API), `aux` the
+float-derived data the harness read from the implementation through the `coupe::verif`
+hooks, which the models of C03/C09 take as a parameter: the rotated points for Rib
+(`runRib` with `rotate` = that table), the Hilbert indices for HilbertCurve, the region
+codes for ZCurve.  MultiJagged needs none: its model only compares coordinates, and the
+`f64` order is carried over to integers by `orderKey`.  The handlers reuse the models and
+the float replicas of the owners' drivers (`RcbF32`, `C09`, `C10`, `C11`, `C13`).
 
 The exact-id correspondences live in the checks of the properties that own
 the models (C03, C09–C13); here only the C01 observable is compared.
@@ -243,8 +255,151 @@ def handleRandom (rest : List String) : String :=
       | none => "panic cannot sample empty range"
   | _ => "bad-op"
 
+/-- Everything before the `=>` marker, and what follows it (if any). -/
+def splitArrow (toks : List String) : List String × Option (List String) :=
+  let pre := toks.takeWhile (· ≠ "=>")
+  match toks.dropWhile (· ≠ "=>") with
+  | _ :: r => (pre, some r)
+  | [] => (pre, none)
+
+/-- `rib<D> <iter> <tol> <wt> <n> <coords…> <weights…> [m=] => <rotated coords…>`: `runRib` with
+`rotate` = the exported frame (C03's `rib` op does the same). -/
+def handleRib (dim : Nat) (rest : List String) (aux : Option (List String)) : String :=
+  match rest with
+  | iter :: tol :: tag :: n :: rest =>
+    match (do
+      let iter ← parseNat? iter
+      let tol ← parseHex? tol
+      let n ← parseNat? n
+      let (_, rest) ← takeParsed parseHex? (n * dim) rest
+      let (ws, rest) ← takeWeights tag n rest
+      let m ← takeM n rest
+      pure (iter, tol, n, ws, m)) with
+    | none => "bad-op"
+    | some (_, _, _, .inexact, _) => "skip non-integer-weight"
+    | some (iter, tol, n, .ints ws, m) =>
+      if m ≠ n then "rejected lenmismatch"
+      else if !weightsInContract ws || iter > 40 then "skip outside-contract"
+      else if n = 0 then "ok"
+      else
+        match aux.bind (fun a => (takeParsed parseHex? (n * dim) a)) with
+        | none => "skip aux-missing"
+        | some (rot, more) =>
+          if !more.isEmpty then "bad-op" else
+          let pts64 := RcbF32.chunk dim n (rot.map RcbF32.f64OfBits)
+          if pts64.any (fun p => p.any (fun x => x.isNaN || x.isInf || x.toFloat32.isInf)) then
+            "skip outside-contract"
+          else
+            let pts := pts64.map (·.map Float.toFloat32)
+            let bb := RcbF32.bboxF64 dim pts64
+            match Coupe.Rcb.runBB (RcbF32.withinTol (RcbF32.f64OfBits tol)) ⟨dim, RcbF32.fuel⟩ iter pts ws m
+                bb.1 bb.2 with
+            | .ok ids => verdictOfIds n (2 ^ iter) ids
+            | .lenMismatch => "err lenmismatch"
+            | .oob => "panic index out of bounds"
+            | .fuel => "hang"
+  | _ => "bad-op"
+
+/-- `hilbert<D> <parts> <order> <n> <coords…> <weights f64…> => <indices…>`: the model's own
+settle loop on the exported indices (`C09.hilbertOut` does the same), then the lookup. -/
+def handleHilbert (dim : Nat) (rest : List String) (aux : Option (List String)) : String :=
+  match rest with
+  | parts :: order :: n :: rest =>
+    match (do
+      let parts ← parseNat? parts
+      let order ← parseNat? order
+      let n ← parseNat? n
+      let (_, rest) ← takeParsed parseHex? (n * dim) rest
+      let (wbits, rest) ← takeParsed parseHex? n rest
+      if rest.isEmpty then pure (parts, order, n, wbits) else none) with
+    | none => "bad-op"
+    | some (parts, order, n, wbits) =>
+      -- `HilbertCurve::partition`: MAX_ORDER check, empty early return, then `partition_indexed`
+      if order > (if dim = 2 then 32 else 21) then "rejected invalidorder"
+      else if parts = 0 then "skip outside-contract"
+      else if !C09.exactWeights wbits then "skip non-integer-weight"
+      else
+        let ws := wbits.map (fun b => Float.ofBits (UInt64.ofNat b))
+        if !(n = 0 || ws.any (fun w => w > 0.0)) then "skip outside-contract"
+        else if n = 0 then "ok"
+        else
+          match aux.bind (fun a => takeParsed parseNat? n a) with
+          | none => "skip aux-missing"
+          | some (idxs, more) =>
+            if !more.isEmpty then "bad-op" else
+            match Coupe.Sfc.Hilbert.quantilesRaw C09.refineFuel idxs ws parts with
+            | none => "hang"
+            | some raw => verdictOfIds n parts (Coupe.Sfc.Hilbert.partitionIndexed idxs raw)
+  | _ => "bad-op"
+
+/-- `zcurve<D> <parts> <order> <n> <coords…> => <codes…>`: `ZCurve.partition` with the region
+function read off the exported codes (as C09's `zc` op). -/
+def handleZCurve (dim : Nat) (rest : List String) (aux : Option (List String)) : String :=
+  match rest with
+  | parts :: order :: n :: rest =>
+    match (do
+      let parts ← parseNat? parts
+      let order ← parseNat? order
+      let n ← parseNat? n
+      let (_, rest) ← takeParsed parseHex? (n * dim) rest
+      if rest.isEmpty then pure (parts, order, n) else none) with
+    | none => "bad-op"
+    | some (parts, order, n) =>
+      if order > Coupe.Sfc.ZCurve.maxOrder dim then
+        match Coupe.Sfc.ZCurve.partition dim order parts Coupe.Sfc.ZCurve.sortByKey (fun _ _ => 0) n (fresh n) with
+        | .panic cls => if cls.startsWith "Cannot use the z-curve" then "rejected order-assert" else "panic " ++ cls
+        | .ok _ => "accepted order-assert"
+      else if parts = 0 then "skip outside-contract"
+      else
+        let codes? : Option (List (List Nat)) :=
+          if n = 0 then some [] else aux.bind (fun a => if a.length = n then a.mapM C09.digitsOf else none)
+        match codes? with
+        | none => "skip aux-missing"
+        | some codes =>
+          if codes.any (·.length ≠ order) then "bad-op" else
+          let codesA := codes.toArray
+          let region := fun (path : List Nat) (i : Nat) => (codesA.getD i []).getD path.length 0
+          match Coupe.Sfc.ZCurve.partition dim order parts Coupe.Sfc.ZCurve.sortByKey region n (fresh n) with
+          | .panic cls => "panic " ++ cls
+          | .ok ids => verdictOfIds n parts ids
+  | _ => "bad-op"
+
+/-- An integer with the order of the finite `f64` whose bit pattern is `b`
+(`+0.0` and `-0.0`, equal for `<`, both go to 0). -/
+def orderKey (b : Nat) : Int :=
+  let mag : Nat := b % 2 ^ 63
+  if b / 2 ^ 63 % 2 = 1 then -(mag : Int) else (mag : Int)
+
+/-- `mj<D> <parts> <max_iter> <n> <coords…> <weights f64…>`: C11's exact model (`froot` scheme,
+`isort`, 3-element scan blocks), ids by leaf number. -/
+def handleMj (dim : Nat) (rest : List String) : String :=
+  match rest with
+  | parts :: maxIter :: n :: rest =>
+    match (do
+      let parts ← parseNat? parts
+      let maxIter ← parseNat? maxIter
+      let n ← parseNat? n
+      let (xs, rest) ← takeParsed parseHex? (n * dim) rest
+      let (ws, rest) ← takeWeights "f" n rest
+      if rest.isEmpty then pure (parts, maxIter, n, xs, ws) else none) with
+    | none => "bad-op"
+    | some (_, _, _, _, .inexact) => "skip non-integer-weight"
+    | some (parts, maxIter, n, xs, .ints ws) =>
+      if !weightsInContract ws || parts = 0 || maxIter = 0 then "skip outside-contract"
+      else if xs.any (fun b => b % 2 ^ 63 ≥ 0x7ff0000000000000) then "skip outside-contract"
+      else if !C11.rootOkRec parts maxIter then "root-hypothesis-violated"
+      else
+        let ca := (xs.map orderKey).toArray
+        let key : Nat → Nat → Int := fun c i => ca.getD (i * dim + c) 0
+        match Coupe.MultiJagged.run {} C11.froot Coupe.MultiJagged.isort (C11.chunkBy 3) dim key
+            (ws.map Int.toNat) n parts maxIter with
+        | none => "panic"
+        | some h => verdictOfIds n parts (Coupe.MultiJagged.assign id h.leaves (fresh n))
+  | _ => "bad-op"
+
 def handle (toks : List String) : String :=
-  match toks with
+  let (pre, aux) := splitArrow toks
+  match pre with
   | algo :: ts :: rest =>
     match parseTs? ts with
     | none => "bad-op"
@@ -252,14 +407,20 @@ def handle (toks : List String) : String :=
       match algo with
       | "rcb2" => handleRcb 2 rest
       | "rcb3" => handleRcb 3 rest
+      | "rib2" => handleRib 2 rest aux
+      | "rib3" => handleRib 3 rest aux
+      | "hilbert2" => handleHilbert 2 rest aux
+      | "hilbert3" => handleHilbert 3 rest aux
+      | "zcurve2" => handleZCurve 2 rest aux
+      | "zcurve3" => handleZCurve 3 rest aux
+      | "mj2" => handleMj 2 rest
+      | "mj3" => handleMj 3 rest
       | "greedy" => handleGreedy rest
       | "kk" => handleKk rest
       | "ckk" => handleCkk rest
       | "grid2" => handleGrid 2 ts rest
       | "grid3" => handleGrid 3 ts rest
       | "random" => handleRandom rest
-      | "rib2" | "rib3" | "hilbert2" | "hilbert3" | "zcurve2" | "zcurve3" | "mj2" | "mj3" =>
-        "skip model-not-wired " ++ algo
       | _ => "bad-op"
   | _ => "bad-op"
 
